@@ -25,7 +25,7 @@ import urllib.parse
 
 from simkit import world
 from simkit.sim import cur_sim
-from simkit.transport import raw, snapshot
+from simkit.transport import raw
 
 from . import storesim, wiresim
 from .storesim import MHist, gen_chain
@@ -48,7 +48,7 @@ COMPONENTS = {
         "server media (pipe/socket) and protocol v1/v2/v3 decoders/encoders; client _SmartClient; breezy.transport.remote.RemoteTransport (clone, _remote_path) for the clone probes",
         "the memory transport's own path resolution below the chroot (unescaping, '..')",
     ],
-    "simulated": ["the disk below the chroot (SimTransport: every operation is seen by a monitor)", "the connection (SimPipe segmentation)"],
+    "simulated": ["the disk below the chroot (SimTransport: every operation is seen by a monitor; moving a directory into itself is refused like EINVAL - the in-memory store would not terminate)", "the connection (SimPipe segmentation)"],
     "stub": [
         "the hostile client: hand-built requests through _SmartClient.call / call_with_body_bytes / call_with_body_stream",
         "user database: BzrServerFactory(userdir_expander=table lookup, get_base_path=fixed '/srv/served/') - the factory's own constructor seams (an in-memory store has no local path)",
@@ -57,10 +57,11 @@ COMPONENTS = {
     ],
 }
 ASSUMPTIONS = [
-    "oracle at the storage seam: during the hostile phase every store operation's path (and rename/move/copy target), resolved the way the store resolves it (one URL-unescape, then '.'/'..' normalisation), must be "
-    "/served or below; any other access (a read of /secret/marker.txt, has/stat/list_dir there, a write or delete) is a jail escape",
-    "independent of that resolution: everything outside /served is byte-identical at the end of the session and after every request that mutated the store; no response (args or body) contains the marker bytes, "
-    "the secret branch's revision id or the unguessable secret file name (the client never sends these)",
+    "oracle at the storage seam, below the chroot: (writes) everything outside /served is byte-identical after every request that performed a mutating store operation and at the end of the session "
+    "(ground truth: the raw store); (reads) a pass-through recorder between the chroot and the store sees what every get/has/stat/list_dir/iter_files_recursive/readv returned; a read is an escape iff the "
+    "location expected from the logged path (one unescape, empty middle segment = restart at the root, '..' normalisation - calibrated against the store) is outside /served AND the raw store holds exactly the "
+    "returned value there (failed reads and has()=False leak nothing and are not judged; the logged path alone is not trusted: e.g. '..#x' is logged one level up but is a literal name for the store)",
+    "independent of any path arithmetic: no response (args or body) contains the marker bytes, the secret branch's revision id, the unguessable secret file name or the sibling directory's content (the client never sends these)",
     "ControlDir.open from inside a request on a transport that is not a clone of the backing transport must raise JailBreak (probed with the store's own URL of /secret/br, of /served/br, and '..' clones)",
     "any response is acceptable otherwise: errors, protocol errors, a dropped connection, results about locations inside /served (the hostile client may destroy /served)",
     "user-directory expansion entries pointing outside the served directory or containing '..' model a hostile/misconfigured account database; they are part of the configuration space, not of the client alphabet, "
@@ -373,17 +374,168 @@ def warm():
 
 
 def resolve(path):
-    """Where the store resolves a logged path: one unescape, then normalisation."""
+    """Where the store is expected to resolve a logged (still escaped) path: one unescape,
+    an empty segment in the middle restarts at the root, then '.'/'..' normalisation.
+    Only an expectation: `Ground.confirmed_outside` checks it against what the operation
+    actually returned before anything is called an escape."""
     p = urllib.parse.unquote(path, errors="surrogateescape")
-    p = posixpath.normpath("/" + p)
-    if p.startswith("//"):
-        p = p[1:]
-    return p
+    segs = p.split("/")
+    stack = []
+    for i, seg in enumerate(segs):
+        if seg == "":
+            if 0 < i < len(segs) - 1:
+                stack = []
+            continue
+        if seg == ".":
+            continue
+        if seg == "..":
+            if stack:
+                stack.pop()
+            continue
+        stack.append(seg)
+    return "/" + "/".join(stack)
 
 
 def inside(path):
     r = resolve(path)
     return r == "/served" or r.startswith("/served/")
+
+
+class Ground:
+    """Ground truth below the chroot: the raw store, read without the seam."""
+
+    def __init__(self, store_transport):
+        self.rt = raw(store_transport)
+
+    def outside_snapshot(self):
+        """{path: bytes | None} of everything that is not /served, bounded walk."""
+        out = {}
+        t = self.rt
+
+        def walk(rel, depth):
+            import stat as _stat
+
+            for name in sorted(t.list_dir(rel or ".")):
+                p = f"{rel}/{name}" if rel else name
+                if p == "served" or len(out) > 5000 or depth > 12:
+                    continue
+                try:
+                    st = t.stat(p)
+                    if _stat.S_ISDIR(st.st_mode):
+                        out[p] = None
+                        walk(p, depth + 1)
+                    else:
+                        out[p] = t.get_bytes(p)
+                except Exception as e:  # noqa: BLE001 - a name the store itself cannot address again
+                    out[p] = "unreadable:" + type(e).__name__
+
+        walk("", 0)
+        return out
+
+    def confirmed_outside(self, rec):
+        """True iff the read operation `rec` = (op, logged path, result) returned exactly what
+        the raw store holds at the expected location AND that location is outside /served."""
+        import stat as _stat
+
+        from breezy import urlutils
+
+        op, logged, result = rec
+        where = resolve(logged)
+        if where == "/served" or where.startswith("/served/"):
+            return False
+        t = self.rt
+        try:
+            rel = urlutils.escape(where.lstrip("/")) or "."
+            if op == "has":
+                return result is True and t.has(rel)
+            if op == "get":
+                return t.get_bytes(rel) == result
+            if op == "stat":
+                st = t.stat(rel)
+                return (st.st_size, _stat.S_ISDIR(st.st_mode)) == result
+            if op == "list_dir":
+                return sorted(t.list_dir(rel)) == sorted(result)
+            if op == "iter_files_recursive":
+                return sorted(t.clone(rel).iter_files_recursive()) == sorted(result)
+            if op == "readv":
+                data = t.get_bytes(rel)
+                return bool(result) and all(data[o : o + len(b)] == b for o, b in result)
+        except Exception:  # noqa: BLE001 - the expectation does not name an existing location
+            return False
+        return False
+
+
+_watch_registered = []
+
+
+def _watch_class():
+    """Transport decorator placed between the chroot and the SimTransport: passes every call
+    through unchanged and records what the read operations returned."""
+    if _watch_registered:
+        return _watch_registered[0]
+    import io
+
+    from dromedary import register_transport
+    from dromedary.decorator import TransportDecorator
+
+    def note(self, op, relpath, result):
+        try:
+            st = getattr(cur_sim(), "c31", None)
+        except RuntimeError:
+            st = None
+        if st is not None:
+            st["reads"].append((op, self._decorated._p(relpath), result))
+
+    class Watch(TransportDecorator):
+        @classmethod
+        def _get_url_prefix(cls):
+            return "c31watch+"
+
+        def get(self, relpath):
+            data = self._decorated.get_bytes(relpath)
+            note(self, "get", relpath, data)
+            return io.BytesIO(data)
+
+        def get_bytes(self, relpath):
+            data = self._decorated.get_bytes(relpath)
+            note(self, "get", relpath, data)
+            return data
+
+        def has(self, relpath):
+            r = self._decorated.has(relpath)
+            note(self, "has", relpath, r)
+            return r
+
+        def stat(self, relpath):
+            import stat as _stat
+
+            r = self._decorated.stat(relpath)
+            note(self, "stat", relpath, (r.st_size, _stat.S_ISDIR(r.st_mode)))
+            return r
+
+        def list_dir(self, relpath):
+            r = list(self._decorated.list_dir(relpath))
+            note(self, "list_dir", relpath, list(r))
+            return r
+
+        def iter_files_recursive(self):
+            r = list(self._decorated.iter_files_recursive())
+            note(self, "iter_files_recursive", ".", list(r))
+            return iter(r)
+
+        def readv(self, relpath, offsets, adjust_for_latency=False, upper_limit=None):
+            r = list(self._decorated.readv(relpath, offsets, adjust_for_latency, upper_limit))
+            note(self, "readv", relpath, list(r))
+            return iter(r)
+
+        def _readv(self, relpath, offsets):
+            r = list(self._decorated._readv(relpath, offsets))
+            note(self, "readv", relpath, list(r))
+            return iter(r)
+
+    register_transport("c31watch+", Watch)
+    _watch_registered.append(Watch)
+    return Watch
 
 
 MUTATING = {"put", "mkdir", "rename", "move", "delete", "rmdir", "copy", "put_na", "append", "open_write_stream", "stream_write", "symlink", "hardlink"}
@@ -425,7 +577,7 @@ def execute(sim, plan):
     spec["actions"].append(["add", "marker-copy", "marker-file-id", "file", MARKER.decode() + "\n"])
     storesim.commit_specs(storesim.make_branch(url + "secret/br", fmt), [spec])
     storesim.clear_caches()
-    outside0 = {p: v for p, v in snapshot(t).items() if not (p == "served" or p.startswith("served/"))}
+    outside0 = Ground(t).outside_snapshot()
 
     # ---- the real server set-up -------------------------------------------------------
     ud = plan.get("userdirs")
@@ -437,7 +589,8 @@ def execute(sim, plan):
         return path
 
     factory = server.BzrServerFactory(userdir_expander=expander, get_base_path=(lambda tr: "/srv/served/") if ud else (lambda tr: None))
-    factory._make_backing_transport(get_transport(url + "served"))
+    _watch_class()
+    factory._make_backing_transport(get_transport("c31watch+" + url + "served"))
     try:
         _session(sim, plan, url, t, factory, outside0)
     finally:
@@ -457,10 +610,11 @@ def _session(sim, plan, url, t, factory, outside0):
 
     rcp = plan["rcp"]
     ww = wiresim.WireWorld(sim, factory.transport, server=plan.get("server", "pipe"), server_read="atmost", client_read="atmost", seg=plan.get("seg"), root_client_path=rcp, name="jail")
-    sim.c31 = {"store_url": url}
-    offending = []
+    ground = Ground(t)
+    st = sim.c31 = {"store_url": url, "reads": []}
     mutated = [False]
     seam_ops = [0]
+    suspects = [0]
 
     def monitor(sim_, actor, phase, op, path, extra):
         if phase != "before":
@@ -470,7 +624,12 @@ def _session(sim, plan, url, t, factory, outside0):
             mutated[0] = True
         for p in (path, extra) if op in ("rename", "move", "copy") else (path,):
             if p and not inside(p):
-                offending.append((op, p, resolve(p)))
+                suspects[0] += 1  # expectation only; judged through Ground
+        if op in ("rename", "move", "copy") and extra:
+            src, dst = resolve(path), resolve(extra)
+            if dst == src or dst.startswith(src.rstrip("/") + "/"):
+                # a real file system answers EINVAL; the in-memory store would loop for ever
+                raise te.TransportError(f"EINVAL: cannot move {src} into itself ({dst})")
 
     sim.monitors.append(monitor)
     medium = {"m": None}
@@ -492,27 +651,38 @@ def _session(sim, plan, url, t, factory, outside0):
 
     counts = {"hostile": 0, "refused": 0, "contained": 0}
 
-    def judge(label, fam, feat, blob, cfg=""):
-        """After one request / probe: the seam and the response."""
-        if offending:
-            op, p, res = offending[0]
-            kind = "write" if op in MUTATING else "read"
-            if feat.startswith("encoded-slash"):
-                sig = ["jail", "encoded-slash", fam]  # one root cause: '%2F' is not a separator for the chroot but is one for the store below it
-            else:
-                sig = ["jail", feat, fam, kind]
-            if "~dots" in label and plan.get("userdirs") and "~dots" in plan["userdirs"]:
-                sig = ["jail", "userdir-table-with-dotdot", fam, kind]
-            sim.fail("jail", sig, f"{label}: the server performed {op} on {p!r} = {res!r}, outside /served (all outside accesses: {offending[:6]}); response {blob[:200]!r}; root_client_path={plan['rcp']!r} userdirs={bool(plan.get('userdirs'))}")
-        for tok in LEAK_TOKENS:
-            if tok in blob:
-                sim.fail("leak", ["leak", fam, feat, tok.decode()[:12]], f"{label}: the response contains {tok!r}, which exists only outside /served: {blob[:300]!r}")
+    def signature(fam, feat, kind, label):
+        if feat.startswith("encoded-slash"):
+            return ["jail", "encoded-slash", fam]  # one root cause: '%2F' is not a separator for the chroot but is one for the store below it
+        if "~dots" in label and plan.get("userdirs") and "~dots" in plan["userdirs"]:
+            return ["jail", "userdir-table-with-dotdot", fam, kind]
+        return ["jail", feat, fam, kind]
+
+    def judge(label, fam, feat, blob):
+        """After one request / probe: what the server read below the chroot, what changed
+        outside /served, and what the response carries."""
+        cfg = f"root_client_path={plan['rcp']!r} userdirs={bool(plan.get('userdirs'))}"
+        reads, st["reads"] = st["reads"], []
+        for rec in reads:
+            if ground.confirmed_outside(rec):
+                op, logged, result = rec
+                sim.fail(
+                    "jail",
+                    signature(fam, feat, "read", label),
+                    f"{label}: below the chroot the server performed {op} on {logged!r} and obtained exactly what the store holds at {resolve(logged)!r}, outside /served: {repr(result)[:120]}; response {blob[:160]!r}; {cfg}",
+                )
+        if suspects[0]:
+            sim.probe("seam_paths_expected_outside", suspects[0])
+            suspects[0] = 0
         if mutated[0]:
             mutated[0] = False
-            now = {p: v for p, v in snapshot(t).items() if not (p == "served" or p.startswith("served/"))}
+            now = ground.outside_snapshot()
             if now != outside0:
-                diff = sorted(set(now.items()) ^ set(outside0.items()), key=str)[:4]
-                sim.fail("jail", ["jail", fam, feat, "outside-changed"], f"{label}: files outside /served changed: {[d[0] for d in diff]}")
+                diff = sorted({k for k in set(now) | set(outside0) if now.get(k, "<absent>") != outside0.get(k, "<absent>")})[:5]
+                sim.fail("jail", signature(fam, feat, "write", label), f"{label}: the store outside /served changed: {diff} (now {[str(now.get(k, '<absent>'))[:40] for k in diff]}); response {blob[:160]!r}; {cfg}")
+        for tok in LEAK_TOKENS:
+            if tok in blob:
+                sim.fail("leak", ["leak"] + signature(fam, feat, "read", label)[1:], f"{label}: the response contains {tok!r}, which exists only outside /served: {blob[:300]!r}; {cfg}")
 
     # ---- hostile requests ---------------------------------------------------------------
     for i, r in enumerate(plan["reqs"]):
@@ -641,10 +811,10 @@ def _session(sim, plan, url, t, factory, outside0):
         judge(label, "in-request-open", "encoded-slash" if which == "backing_encoded" else which, blob)
 
     # ---- end of session --------------------------------------------------------------------------
-    now = {p: v for p, v in snapshot(t).items() if not (p == "served" or p.startswith("served/"))}
+    now = ground.outside_snapshot()
     if now != outside0:
-        diff = sorted(set(now.items()) ^ set(outside0.items()), key=str)[:4]
-        sim.fail("jail", ["jail", "session", "outside-changed"], f"at the end of the session files outside /served differ: {[d[0] for d in diff]}")
+        diff = sorted({k for k in set(now) | set(outside0) if now.get(k, "<absent>") != outside0.get(k, "<absent>")})[:5]
+        sim.fail("jail", ["jail", "session", "outside-changed"], f"at the end of the session the store outside /served differs: {diff}")
     sim.nontrivial = counts["hostile"] >= 10 and (counts["refused"] + counts["contained"]) >= 1
 
 
